@@ -151,6 +151,7 @@ pub enum NoiseClass {
     Zeros,
     All1b,
     Long,
+    FalseStart,
 }
 
 impl NoiseClass {
@@ -164,6 +165,7 @@ impl NoiseClass {
             NoiseClass::Zeros => "zeros",
             NoiseClass::All1b => "all-1b",
             NoiseClass::Long => "long",
+            NoiseClass::FalseStart => "false-start",
         }
     }
 }
@@ -224,6 +226,22 @@ pub fn gen_noise_class(rng: &mut Rng, class: NoiseClass, max: usize) -> Vec<u8> 
             v.extend_from_slice(&rng.bytes(m));
             v
         }
+        NoiseClass::FalseStart => {
+            // looks like a start sequence at a glance but is none: 1b1b1b1b 01{1..3} 1b{1..3} 01010101,
+            // optionally followed by something that would derail a decoder that took it for one
+            let mut v = rng.bytes_range(0, 4);
+            v.extend_from_slice(&[0x1b; 4]);
+            v.extend(std::iter::repeat(0x01).take(rng.range(1, 3)));
+            v.extend(std::iter::repeat(0x1b).take(rng.range(1, 3)));
+            v.extend_from_slice(&[0x01; 4]);
+            match rng.below(4) {
+                0 => {}
+                1 => v.push(0x1b),
+                2 => v.extend_from_slice(&[0x33, 0x1b, 0x1b, 0x1b, 0x1b, 0x1a, 0x00, 0x12, 0x34]),
+                _ => v.extend_from_slice(&rng.bytes_range(1, 6)),
+            }
+            v
+        }
         NoiseClass::Zeros => vec![0u8; rng.range(1, 20)],
         NoiseClass::All1b => vec![0x1bu8; rng.range(1, 20)],
         NoiseClass::Long => {
@@ -241,7 +259,7 @@ pub fn gen_noise_class(rng: &mut Rng, class: NoiseClass, max: usize) -> Vec<u8> 
     g
 }
 
-pub const NOISE_CLASSES: [NoiseClass; 8] = [
+pub const NOISE_CLASSES: [NoiseClass; 9] = [
     NoiseClass::Empty,
     NoiseClass::Random,
     NoiseClass::Ends1b,
@@ -250,10 +268,11 @@ pub const NOISE_CLASSES: [NoiseClass; 8] = [
     NoiseClass::Zeros,
     NoiseClass::All1b,
     NoiseClass::Long,
+    NoiseClass::FalseStart,
 ];
 
 pub fn gen_noise(rng: &mut Rng, max: usize) -> (NoiseClass, Vec<u8>) {
-    let c = NOISE_CLASSES[rng.weighted(&[6, 10, 8, 8, 4, 2, 2, 1])];
+    let c = NOISE_CLASSES[rng.weighted(&[6, 10, 8, 8, 4, 2, 2, 1, 3])];
     (c, gen_noise_class(rng, c, max))
 }
 
@@ -365,6 +384,7 @@ pub const BYZ_KINDS: &[&str] = &[
     "restart-crc-tail",
     "invalid-esc",
     "mangled-start",
+    "bogus-realign",
     "canonical",
 ];
 
@@ -489,6 +509,28 @@ pub fn gen_byzantine_frame(rng: &mut Rng) -> (usize, Vec<u8>) {
                 v.extend_from_slice(&t);
             }
         }
+        "bogus-realign" => {
+            // body whose length is not a multiple of four, then 1b1b1b1b, then filler bytes up to the
+            // alignment that are NOT all 1b, then `1a 00` + CRC: looks like the "message ends in
+            // 1-3 x 1b without padding" case, but is not
+            while data.len() % 4 == 0 {
+                data.push(0x4b);
+            }
+            let k = 4 - data.len() % 4;
+            v.extend_from_slice(&data);
+            v.extend_from_slice(&[0x1b; 4]);
+            let fill: Vec<u8> = (0..k)
+                .map(|i| if i + 1 == k || rng.chance(1, 2) { *rng.pick(&[0x42u8, 0x00, 0x01, 0xff]) } else { 0x1b })
+                .collect();
+            v.extend_from_slice(&fill);
+            v.push(0x1a);
+            v.push(0x00);
+            let crc = crate::refenc::crc16_x25(&v);
+            v.push((crc & 0xff) as u8);
+            v.push((crc >> 8) as u8);
+            // (the decoder reads the 4 bytes after 1b1b1b1b as the escape code, so the stream goes on
+            // with whatever follows; nothing here may be delivered)
+        }
         "mangled-start" => {
             // body, end sequence and CRC of a genuine frame behind a start sequence that is not one
             let f = refenc(&data);
@@ -514,7 +556,20 @@ pub fn gen_byzantine_frame(rng: &mut Rng) -> (usize, Vec<u8>) {
             }
             v.extend_from_slice(&data);
             v.extend_from_slice(&[0x1b; 4]);
-            v.extend_from_slice(&[*rng.pick(&[0x02u8, 0x1c, 0x00, 0x1a ^ 0x80]), 0, 0, 0]);
+            let code: [u8; 4] = match rng.below(8) {
+                0 => [0x01, 0xff, 0x01, 0x01],
+                1 => [0x01, 0x01, 0xff, 0x01],
+                2 => [0x01, 0x01, 0x01, 0x00],
+                3 => [0x01, 0x1b, 0x1b, 0x1b],
+                4 => [0x02, 0x03, 0x04, 0x1b],
+                5 => [0x02, 0x03, 0x1b, 0x1b],
+                _ => [*rng.pick(&[0x02u8, 0x1c, 0x00, 0x1a ^ 0x80]), 0, 0, 0],
+            };
+            v.extend_from_slice(&code);
+            // sometimes the stream ends right here, sometimes more of the frame follows
+            if rng.chance(1, 3) {
+                return (k, v);
+            }
             seal_end(&mut v, 0);
         }
         _ => {
